@@ -15,9 +15,11 @@ CLAIMED = {
             "Lean theorems over the executable model (any degree, any non-decreasing knot function, any span, any parameter, any dimension, any ordered field): "
             "each coordinate of the curve point computed by A3.1 equals the sum over ALL control points of Cox-de Boor basis function times control point; the "
             "surface point equals the double and the volume point the triple tensor-product sum with the flat layout v + size_v*(u + size_u*w); for positive weights the weight function is positive and the "
-            "rational point is the quotient of the two sums; the sampled parameters are n strictly increasing values starting and ending exactly on the domain ends. "
+            "rational point is the quotient of the two sums; the sampled parameters are n strictly increasing values starting and ending exactly on the domain ends; "
+            "entry points: evaluate_list / the curve grid is the map of evaluate_single, the surface grid has |us|*|vs| points with point (i,j) at flat index i*|vs|+j (volume: u slowest, w fastest), its first and last "
+            "points are the surface points at the domain corners, and entry 0 of Curve.derivatives(u, order) is the evaluated point for every order. "
             "The model is tied to Curve/Surface/Volume evaluate_single / evaluate_list / evalpts / derivatives(order=0) (BSpline and NURBS) by exact correspondence.",
-            "Not proved: the agreement of the object layer's entry points as a Lean statement (tied by correspondence + exact oracle). "
+            "Not proved: the zeroth derivative of surfaces through the A2.3-based model and the object layer's dispatch to the model functions (tied by correspondence + exact oracle). "
             "Known finding F-01 (sample size under normalize_kv=False) is reported as KNOWN-FINDING."),
     'C04': ("7/C04",
             "Lean theorems insert_preserves_curve (function level: spans found by the library's linear search before and after, EVERY parameter of the domain incl. both ends), insert_sequence_preserves (ANY sequence of admissible insertions, by induction over the request list, well-formedness preserved) and insert_preserves_curve_point: for every degree, sorted knot vector, control polygon of any dimension (homogeneous points for rational curves), "
